@@ -382,3 +382,40 @@ PROPS["C15"] = dict(
     abstractions=COMMON_ABS,
     extra=[scan_dumps_call_sites, lemma_partial_roundtrip],
 )
+
+PROPS["C18"] = dict(
+    proved="fork_exec passes close_fds=True, exactly the sorted keep list, no preexec function, and an environment that is the parent's overlaid with env= (one "
+           "'k=v' entry per variable, the overlay winning), on every path closing its error pipe; Popen._launch keeps exactly the deliberate handles (child pipe ends, "
+           "both tracker descriptors, descriptors collected while pickling), never a parent-side end, makes them inheritable, puts the child read end on the command "
+           "line, ships process_obj.env, records pid and sentinel, writes the payload and closes the write end; poll() maps the wait status to -signal / exit code for "
+           "every status value and caches it, wait() returns None only when the sentinel did not become ready; LokyProcess defaults to init_main_module=False (checked "
+           "against the source default), LokyInitMainProcess forces True; get_preparation_data ships a main-module key only when asked and prepare() re-runs __main__ only "
+           "when such a key is present; _adjust_process_count (the single worker spawn site, structural scan) ships initializer, initargs and env; the worker runs the "
+           "initializer before its first get and processes nothing when it raises.",
+    not_covered="what the kernel does with close_fds/pass_fds; the interpreter's own start-up; descriptors opened by the child; _chain_initializers (filtering "
+                "loop over Python lists) is an assumed summary.",
+    assumptions=["A-posix", "A-fds", "A-user", "A-finalize", "A-tracker-stable", "A-spawn"],
+    abstractions=EXEC_ABS,
+    extra=[scan_worker_spawn_sites],
+)
+PROPS["C20"] = dict(
+    proved="ownership accounting over a ghost set of open descriptors: fork_exec, Popen._launch and ResourceTracker.ensure_running close or hand to an owner every "
+           "descriptor they open on *every* exit path (normal and exceptional: failing fork_exec, failing os.pipe, failing spawn); only the documented ones survive "
+           "(the sentinel, owned by a finalizer; the tracker's write end, recorded in the tracker object); _ThreadWakeup.close closes both ends once, SimpleQueue.close "
+           "both ends; join_executor_internals closes the call queue, its feeder, the result queue and the wake-up pipe and joins every registered worker; "
+           "terminate_broken reaches it; a cleanly exiting worker is joined when its pid is processed; shutdown() drops the five fd-holding references.",
+    not_covered="the cumulative statement itself (counts after N lifecycles), threads and zombies as observed by the OS, named semaphores (C13).",
+    assumptions=["A-fds", "A-finalize", "A-atomic", "A-tracker-stable", "A-posix"],
+    abstractions=EXEC_ABS,
+)
+PROPS["C12"] = dict(
+    proved="get_preparation_data starts the tracker first and ships its pid/descriptor as they are after that call; Popen._launch keeps that descriptor (inheritable) "
+           "in the child's keep list; prepare() installs exactly the shipped pid/descriptor in the child's tracker object (induction over depth: every process of the tree "
+           "reports to the root's tracker); ensure_running leaves a living tracker alone and relaunches a dead or missing one (old descriptor closed, child reaped, one "
+           "warning), with SIGINT/SIGTERM blocked before the spawn and unblocked after it on every exit, the read end closed in the parent on every exit and the write "
+           "end closed when the spawn failed; the tracker's main() ignores SIGINT and SIGTERM before its first read and leaves its loop only at end of file.",
+    not_covered="that end of file happens only after the *last* member is gone, deaths by SIGKILL, signals during start-up before main() runs (A-kernel); "
+                "the loky_init_main path beyond sharing _launch.",
+    assumptions=["A-kernel", "A-warn", "A-fds", "A-tracker-stable", "A-posix"],
+    abstractions=EXEC_ABS,
+)
